@@ -37,7 +37,7 @@ def _case(draw):
         f = draw(st.lists(st.sampled_from(_DY), min_size=n, max_size=n))
     if not any(f):
         f[draw(st.integers(0, n - 1))] = 1.0
-    gk = draw(st.sampled_from(["contribution", "circular", "upwind", "crosswind", "sector", "random", "random"]))
+    gk = draw(st.sampled_from(["contribution", "circular", "upwind", "crosswind", "sector", "random", "random", "close"]))
     case = {"ny": ny, "nx": nx, "f": f, "gkind": gk, "floats": floats,
             "dx": draw(st.sampled_from([0.5, 1.0, 2.0, 8.0])), "dy": draw(st.sampled_from([0.25, 1.0, 4.0])),
             "tower": [draw(st.integers(0, nx - 1)), draw(st.integers(0, ny - 1))],
@@ -50,7 +50,9 @@ def _case(draw):
             "scale": draw(st.sampled_from([0.25, 2.0, 1024.0, 2.0**-30, 2.0**-40, 2.0**30])),  # footprints in other units
             "coords": draw(st.sampled_from(["1d", "2d"])),
             "layout": draw(st.sampled_from(["C", "C", "F", "view"])),
-            "stack": draw(st.integers(1, 3)), "level": 0}
+            "stack": draw(st.integers(1, 3)), "level": 0,
+            # the field as a single-precision run returns it, next to a double-precision base function
+            "f32": draw(st.integers(0, 3)) == 0}
     case["level"] = draw(st.integers(0, case["stack"] - 1))
     return case
 
@@ -75,11 +77,13 @@ def _g(case, f, X, Y):
         return bldfm.source_area_crosswind(X, Y, mp, w)
     if k == "sector":
         return bldfm.source_area_sector(X, Y, mp, w)
+    if k == "close":  # distinct in double precision, indistinguishable in single precision
+        return 1.0 + 1e-10 * np.asarray(case["grand"], float).reshape(f.shape)
     return np.asarray(case["grand"], float).reshape(f.shape)
 
 
 def _bounds(f, g):
-    ff, gf = f.ravel(), g.ravel()
+    ff, gf = np.asarray(f, float).ravel(), g.ravel()
     lo = np.array([ff[gf > gc].sum() for gc in gf])
     hi = np.array([ff[gf >= gc].sum() for gc in gf]) - ff
     return lo.reshape(f.shape), hi.reshape(f.shape)
@@ -101,7 +105,11 @@ def check_case(case):
         f, g = np.asfortranarray(f), np.asfortranarray(g)
     elif lay == "view":  # transposed views of C arrays
         f, g = np.ascontiguousarray(f.T).T, np.ascontiguousarray(g.T).T
-    total = f.sum()
+    f32 = bool(case.get("f32"))
+    if f32:
+        f = f.astype(np.float32)  # the values the oracle sums are the single-precision ones
+        out.label("f-float32")
+    total = f.astype(float).sum()
     out.label("g=" + case["gkind"], "ties-in-g" if len(np.unique(g)) < g.size else "g-untied",
               "zeros-in-f" if (f == 0).any() else "f-positive", "float-values" if case.get("floats") else "dyadic-values", f"coords={case['coords']}", f"stack={case['stack']}", "layout=" + lay)
 
@@ -111,7 +119,7 @@ def check_case(case):
         if r.shape != lo_.shape:
             out.bad(f"{name}: result shape {r.shape}, expected {lo_.shape}")
             return
-        slack = 1e-12 * float(total) if case.get("floats") else 0.0
+        slack = (1e-5 if f32 else 1e-12) * float(total) if case.get("floats") else 0.0
         badc = np.argwhere((r < lo_ - slack) | (r > hi_ + slack))
         if len(badc):
             j, i = badc[0]
@@ -131,7 +139,7 @@ def check_case(case):
     lo_a, hi_a = _bounds(f, g_alt)
     within("get_source_area with a second base field on the same f", bldfm.get_source_area(f, g_alt), lo_a, hi_a)
     if r.shape == f.shape:
-        if (r < 0).any() or (r > total - f + (1e-12 * float(total) if case.get("floats") else 0.0)).any():
+        if (r < 0).any() or (r > total - f + ((1e-5 if f32 else 1e-12) * float(total) if case.get("floats") else 0.0)).any():
             out.bad("rescaled field leaves [0, total - f_cell]")
         gf, rf = g.ravel(), r.ravel()
         o = np.argsort(gf, kind="stable")
@@ -166,7 +174,10 @@ def check_case(case):
     rp = bldfm.get_source_area(fp, gp)
     within("after a common permutation of cells", rp, lo.ravel()[perm].reshape(f.shape), hi.ravel()[perm].reshape(f.shape))
 
-    # ---- percentile contour
+    # ---- percentile contour (on the double-precision field: its oracle counts cells with 1e-12 slack)
+    if f32:
+        f = f.astype(float)
+        total = f.sum()
     st_ = case["stack"]
     lvl = case["level"]
     if st_ == 1:
